@@ -28,6 +28,9 @@ MisuseKinds == {"param_ARGS", "param_KWARGS", "kw_ARGS", "kw_KWARGS", "kw_ARGS_r
                 \* the same reserved names declared keyword-only (with a default), positional-only, or passed through **kwargs
                 "param_result_kwonly", "param_OLD_kwonly", "param_result_posonly", "param_OLD_posonly",
                 "kw_result", "kw_OLD",
+                \* ... on a function that also has a precondition which the call VIOLATES: the reserved name is reported
+                \* (TypeError), not the violation
+                "param_result_pre_violated", "param_OLD_pre_violated",
                 \* an unnamed capture must have exactly one parameter, defaulted ones count: lambda x, y=2: .. / lambda x, *, y=2: ..
                 "capture_noname_default", "capture_noname_kwdefault",
                 \* falsy values that are no exception class / instance / function either
@@ -57,6 +60,7 @@ MisuseApplies(m, d, c) ==
     [] m \in {"kw_ARGS_reentrant", "kw_KWARGS_reentrant"} -> d \in {"require", "ensure"} /\ c \in {"function", "method", "static"}
     [] m \in {"param_ARGS_inherited", "param_KWARGS_inherited"} -> d \in {"require", "ensure"} /\ c \in {"method", "async_method", "static", "classm"}
     [] m \in {"inv_coroutine_error_class", "inv_coroutine_error_factory"} -> d = "invariant" /\ c = "class"
+    [] m \in {"param_result_pre_violated", "param_OLD_pre_violated"} -> d = "ensure" /\ c \notin {"class", "getter"}
     [] m \in ReservedPost -> d \in {"require", "ensure"} /\ c \notin {"class", "getter"}
     [] m \in InvParamKinds \cup {"inv_coroutine"} -> d = "invariant" /\ c = "class"
     [] m \in {"snapshot_no_post", "capture_noname_0", "capture_noname_2", "snapshot_dup", "capture_noname_default",
@@ -69,6 +73,7 @@ MisuseExpected(m, d, c) ==
   CASE m \in {"param_ARGS", "param_KWARGS", "param_ARGS_inherited", "param_KWARGS_inherited"} -> [moment |-> "decorate", exc |-> "TypeError"]
     [] m \in {"inv_coroutine_error_class", "inv_coroutine_error_factory"} -> [moment |-> "create", exc |-> "ValueError"]
     [] m \in {"kw_ARGS", "kw_KWARGS", "kw_ARGS_reentrant", "kw_KWARGS_reentrant"} -> [moment |-> "call", exc |-> "TypeError"]
+    [] m \in {"param_result_pre_violated", "param_OLD_pre_violated"} -> [moment |-> "call", exc |-> "TypeError"]
     [] m \in ReservedPost ->
          \* only a function with postconditions reserves these names
          IF d = "ensure" THEN [moment |-> "call", exc |-> "TypeError"] ELSE [moment |-> "never", exc |-> ""]
